@@ -7,7 +7,9 @@ n = int(sys.argv[2]) if len(sys.argv) > 2 else 500
 mode = sys.argv[3] if len(sys.argv) > 3 else 'debug'
 with_oracle = len(sys.argv) > 4
 rng = random.Random(int(os.environ.get('SEED', '1')))
-cases = mod.generate(rng, 'quick')[:n]
+core.prepare_workspace()
+core.coq_build([f[:-2] + ".vo" for f in mod.EVAL_FILES])
+cases = mod.generate(rng, "quick")[:n]
 t = time.time()
 lines = [mod.impl_line(c) for c in cases]
 out = core.harness_run(mod.CRATES[0] if 'crate' not in cases[0] else cases[0]['crate'], lines, release=(mode == 'release'), per_case_timeout=5.0)
